@@ -10,7 +10,8 @@ back and compared with the clauses of the property:
             vertical separators and cell texts agree on one geometry)
   text      reading the lines of a cell from top to bottom gives the cell's visible characters in
             order (white space aside); rows come in order, every logical row starts on a fresh line
-  frame     the lists handed to the table (header, rows) and the style object are unchanged afterwards
+  frame     the lists handed to the table (header, rows) and the style object are unchanged afterwards,
+            and rendering the same table object a second time gives the same text
 
 To parse borderless output without knowing the column widths, column c only uses the two letters
 `LETTERS[c]` (upper case in the header), so every character of the output can be attributed to its column.
@@ -93,7 +94,19 @@ def render(case):
     except Exception as e:  # the property: rendering succeeds
         res["exc"] = e
     res["out"] = io.fetch_output()
-    if header is not None and header != case["header"]:
+    if res["exc"] is None:
+        # behavioural side of "does not modify the table": a second rendering gives the same text
+        io.clear_output()
+        try:
+            table.render(io, case["indent"])
+        except Exception as e:
+            res["modified"] = "second render raised %r" % (e,)
+        else:
+            if io.fetch_output() != res["out"]:
+                res["modified"] = "second render of the same table gives a different text"
+    if res["modified"]:
+        pass
+    elif header is not None and header != case["header"]:
         res["modified"] = "header row changed to %r" % (header,)
     elif rows != [list(r) for r in case["rows"]]:
         res["modified"] = "rows changed to %r" % (rows,)
